@@ -240,6 +240,17 @@ Proof.
     destruct (a >=? len)%Z eqn:E1; [reflexivity|lia].
 Qed.
 
+(* a suffix LONGER than the body: the code (and so the model) finds nothing satisfiable, where RFC 7233 2.1 selects
+   the whole body — the classified finding range:suffix-longer-than-file-416 *)
+Theorem range_suffix_longer : forall n len,
+  (0 <= len < n)%Z -> range_for_length (- n) None len = None.
+Proof.
+  intros n len H. unfold range_for_length, cr_valid.
+  destruct (- n <? 0)%Z eqn:E0; [|lia].
+  destruct (- n + len >=? len)%Z eqn:E1; [reflexivity|].
+  destruct ((0 <=? - n + len) && (- n + len <? len))%Z eqn:E2; [lia|reflexivity].
+Qed.
+
 (* ------------------------------------------------------------------ FileApp *)
 Lemma GET_not_HEAD : str_eqb GET HEAD = false.
 Proof. reflexivity. Qed.
@@ -333,6 +344,18 @@ Proof.
   intros content k rs re m [->| ->] Hr; unfold fileapp; cbn [meth range kind];
     [change (str_eqb GET GET) with true | change (str_eqb HEAD HEAD) with true; change (str_eqb HEAD GET) with false];
     cbn [orb negb]; rewrite Hr; reflexivity.
+Qed.
+
+(* "for any Range request exactly the requested slice" is REFUTED for a suffix longer than the file:
+   Range: bytes=-20 on a 10-byte file is answered 416 although the requested slice is the whole file *)
+Theorem range_suffix_longer_refuted :
+  exists content n k,
+    (0 < Z.of_nat (length content) < n)%Z /\ kind_ok k content /\
+    fileapp (File true content) (mkFreq GET (Some ((- n)%Z, None)) k) =
+      mkResp 416 None None (Some (None, Z.of_nat (length content))) [] (Some []).
+Proof.
+  exists [0; 1; 2; 3; 4; 5; 6; 7; 8; 9]%N, 20%Z, (KFileIter 65536 []).
+  repeat split; try reflexivity; cbn; lia.
 Qed.
 
 (* ------------------------------------------------------------------ end to end *)
